@@ -235,7 +235,26 @@ def run(pid, tier, seed, replay=None):
         pbp = PB_C01 if pid == "C01" else PB_C02
         e3, s3 = record(pbp, (1, 2), "pb", os.path.join(vlib.BUILD, "traces", pid + "_pb"), extra=["--pb-bound", "2" if tier == "quick" else "3", "--max-execs", "700" if tier == "quick" else "20000"])
         execs += e3
-        for s in (s2, s3):
+        # spec -> code: TLC-generated behaviours of the L2 model replayed step by step into the real queue
+        nbeh = 60 if tier == "quick" else 1500
+        beh = bq.tlc_behaviours(os.path.join(SPEC, "MC_BQ.tla"), os.path.join(SPEC, "mc", "BQ_sim.cfg"), nbeh, 160, seed, os.path.join(vlib.BUILD, "sim_" + pid))
+        sf = os.path.join(vlib.BUILD, "traces", pid + "_scripts.txt")
+        open(sf, "w").write("\n".join("cap=%d,base=%d,prog=%s|%s" % (c, b, p, ",".join(map(str, st))) for c, b, p, st in beh) + "\n")
+        raw = os.path.join(vlib.BUILD, "traces", pid + "_replay.ndjson")
+        s4 = vlib.driver_status(vlib.driver("bq_driver", ["--scenario", "bq", "--scripts-file", sf, "--out", raw, "--max-steps", "20000"]))
+        e4 = list(vlib.split_traces(raw))
+        os.unlink(raw)
+        followed = 0
+        for ex, (c, b, p, st) in zip(e4, beh):
+            order = [(-1 if x["k"] == "tick" else x["t"]) for x in bq.normalise(ex) if x["k"] not in ("reset", "end", "final")]
+            if order[:len(st)] == st and ex[-1].get("status") != "script_mismatch":
+                followed += 1
+            else:
+                V.drift += 1
+                log("SPEC-DRIFT component=bounded_queue replay of TLC behaviour not followed: prog=%s status=%s" % (p, ex[-1].get("status")))
+        V.extra["tlc_behaviours_replayed"] = {"generated": len(beh), "followed_exactly": followed, "steps": sum(len(b[3]) for b in beh)}
+        execs += e4
+        for s in (s2, s3, s4["status"]):
             for k, v in s.items():
                 status[k] = status.get(k, 0) + v
     V.extra["executions"] = len(execs)
